@@ -7,6 +7,7 @@ use duke::tree::descriptor::{ParsedFieldDescriptor, Type};
 use duke::tree::field::{Field, FieldDescriptor, FieldNameSlice, FieldRef, FieldSignature};
 use duke::tree::method::{Method, MethodDescriptor, MethodNameAndDesc, MethodParameter, MethodRef, MethodSignature};
 use duke::tree::method::code::{Code, ConstantDynamic, Exception, Handle, Instruction, InstructionListEntry, InvokeDynamic, Loadable, Lv};
+use duke::tree::module::{Module, ModuleProvides};
 use duke::tree::type_annotation::TypeAnnotation;
 use duke::visitor::method::code::{StackMapData, VerificationTypeInfo};
 use quill::remapper::BRemapper;
@@ -157,9 +158,9 @@ impl Mappable for ClassFile {
 			runtime_visible_type_annotations: self.runtime_visible_type_annotations.remap(remapper)?,
 			runtime_invisible_type_annotations: self.runtime_invisible_type_annotations.remap(remapper)?,
 
-			module: None, // TODO
-			module_packages: None, // TODO
-			module_main_class: None, // TODO
+			module: self.module.remap(remapper)?,
+			module_packages: self.module_packages,
+			module_main_class: self.module_main_class.remap(remapper)?,
 
 			nest_host_class: self.nest_host_class.remap(remapper)?,
 			nest_members: self.nest_members.remap(remapper)?,
@@ -168,6 +169,30 @@ impl Mappable for ClassFile {
 			record_components: Vec::new(), // TODO (takes in self.name as well)
 
 			attributes: self.attributes,
+		})
+	}
+}
+
+impl Mappable for Module {
+	fn remap(self, remapper: &impl BRemapper) -> Result<Self> {
+		Ok(Module {
+			name: self.name,
+			flags: self.flags,
+			version: self.version,
+			requires: self.requires,
+			exports: self.exports,
+			opens: self.opens,
+			uses: self.uses.remap(remapper)?,
+			provides: self.provides.remap(remapper)?,
+		})
+	}
+}
+
+impl Mappable for ModuleProvides {
+	fn remap(self, remapper: &impl BRemapper) -> Result<Self> {
+		Ok(ModuleProvides {
+			name: self.name.remap(remapper)?,
+			provides_with: self.provides_with.remap(remapper)?,
 		})
 	}
 }
